@@ -5,6 +5,7 @@
   paths are stated over `wrap64`, i.e. over what the wrapping Go expression computes.
 -/
 import Gojq.Proofs.Arith
+import Gojq.Model.Compare
 namespace Gojq.C10
 open Gojq
 
@@ -97,6 +98,28 @@ theorem fast_paths_in_range_or_promoted (l r : Int) (hl : InRange l) (hr : InRan
     addInt l r = l + r ∧ subInt l r = l - r ∧ mulInt l r = l * r ∧ negateInt l = -l :=
   ⟨addInt_exact hl hr, subInt_exact hl hr, mulInt_exact hl hr, negateInt_exact hl⟩
 
+/-- comparisons between integers of any magnitude are exact: `Compare` on two integers is the
+    order of the integers (never a comparison of rounded floats, never a wrapped difference). -/
+theorem cmp_int_exact (l r : Int) :
+    (cmpNum (.int l) (.int r) = .lt ↔ l < r) ∧ (cmpNum (.int l) (.int r) = .eq ↔ l = r) ∧
+    (cmpNum (.int l) (.int r) = .gt ↔ r < l) := by
+  simp only [cmpNum, cmpInt]
+  by_cases h1 : l < r
+  · simp [h1]; omega
+  · by_cases h2 : l = r
+    · simp [h2]
+    · simp [h1, h2]; omega
+
+/-- `==` on integers is equality of the integers -/
+theorem eq_int_exact (l r : Int) : opEq (.num (.int l)) (.num (.int r)) = decide (l = r) := by
+  simp only [opEq, cmp, cmpNum, cmpInt]
+  by_cases h1 : l < r
+  · have : l ≠ r := by omega
+    simp [h1, this]
+  · by_cases h2 : l = r
+    · simp [h2]
+    · simp [h1, h2]
+
 /-! Non-vacuity: concrete operands at the boundaries the property names. -/
 example : opAddNum (.int maxInt) (.int 1) = .int 9223372036854775808 := by decide
 example : opMulNum (.int 3037000500) (.int 3037000500) = .int 9223372037000250000 := by decide
@@ -104,5 +127,8 @@ example : opMulNum (.int minInt) (.int (-1)) = .int 9223372036854775808 := by de
 example : opSubNum (.int minInt) (.int 1) = .int (-9223372036854775809) := by decide
 example : opModNum (.int (-7)) (.int 2) = .ok (.int (-1)) := by rfl
 example : opDivNum (.int minInt) (.int (-1)) = .ok (.int 9223372036854775808) := by rfl
+
+example : cmpNum (.int 9007199254740993) (.int 9007199254740992) = .gt := by decide
+example : cmpNum (.int minInt) (.int (-9223372036854775808)) = .eq := by decide
 
 end Gojq.C10
